@@ -83,11 +83,27 @@ Proof.
   split. exact En. split. unfold F_matmul. rewrite Ra, Rb. exact En. auto.
 Qed.
 
+Lemma mm_spec (a b:tensor A) ba bb bo n k m :
+  tshape a = ba ++ [n; k] -> tshape b = bb ++ [k; m] -> broadcast_shapes ba bb = Some bo ->
+  exists o, mm a b = Some o /\ tshape o = bo ++ [n; m] /\ forall p r c, tat o (p ++ [r; c]) = mm_val a b ba bb bo k p r c.
+Proof.
+  intros Ha Hb Eb. assert (Ra := rank_app2 a _ _ _ Ha). assert (Rb := rank_app2 b _ _ _ Hb).
+  unfold mm. rewrite Ha, Hb, !last2_of_app, !batch_of_app, Ra, Rb. cbn [Nat.leb andb]. rewrite Nat.eqb_refl, Eb.
+  eexists. split. reflexivity. split. reflexivity. intros p r c. cbn [tat]. rewrite firstn_app2, last2_of_app. reflexivity.
+Qed.
+
 Lemma swap_last2_spec (b:tensor A) bb x y : tshape b = bb ++ [x; y] ->
   exists bT, swap_last2 b = Some bT /\ tshape bT = bb ++ [y; x] /\ forall q u v, tat bT (q ++ [u; v]) = tat b (q ++ [v; u]).
 Proof.
   intros Hb. unfold swap_last2. rewrite Hb, last2_of_app, batch_of_app, (rank_app2 b _ _ _ Hb). cbn [Nat.leb].
   eexists. split. reflexivity. split. reflexivity. intros q u v. cbn [tat]. now rewrite last2_of_app, firstn_app2.
+Qed.
+
+Lemma matmul_backward_rank2 (g a b:tensor A) ba bb (n k k' m:nat) :
+  tshape a = ba ++ [n; k] -> tshape b = bb ++ [k'; m] -> matmul_backward g a b = matmul_backward2 g a b.
+Proof.
+  intros Ha Hb. unfold matmul_backward. rewrite (rank_app2 a _ _ _ Ha), (rank_app2 b _ _ _ Hb). cbn [Nat.eqb].
+  destruct (matmul_backward2 g a b) as [[x y]|]; reflexivity.
 Qed.
 
 Context `{!ScalarMulLaws A}.
@@ -114,7 +130,7 @@ Proof.
   assert (BB: broadcastable (bb ++ [k; m]) (bo ++ [k; m]) = true) by now apply broadcastable_app.
   destruct (unbroadcast_is_scatter_proof _ _ ga' BA Hga') as (ga & Ega & Hsa & Vga).
   destruct (unbroadcast_is_scatter_proof _ _ gb' BB Hgb') as (gb & Egb & Hsb & Vgb).
-  exists ga, gb. unfold matmul_backward. rewrite EbT, EaT. cbn [obind]. rewrite Ega', Egb'. cbn [obind].
+  exists ga, gb. rewrite (matmul_backward_rank2 g a b ba bb n k k m Ha Hb). unfold matmul_backward2. rewrite EbT, EaT. cbn [obind]. rewrite Ega', Egb'. cbn [obind].
   rewrite Ha, Hb, Ega, Egb. cbn [obind]. repeat split; auto.
   - (* d/da *)
     intros da Hda.
@@ -159,7 +175,10 @@ Qed.
 Lemma addmm_prod_shape_spec bb bc bo (n k k' m:nat) : broadcast_shapes bb bc = Some bo ->
   addmm_prod_shape (bb ++ [n; k]) (bc ++ [k'; m]) = Some (bo ++ [n; m]).
 Proof.
-  intros Eb. unfold addmm_prod_shape. rewrite !batch_of_app, Eb. cbn [obind].
+  intros Eb. unfold addmm_prod_shape. rewrite !app_length. cbn [length].
+  replace (length bb + 2 =? 1) with false by (symmetry; apply Nat.eqb_neq; lia).
+  replace (length bc + 2 =? 1) with false by (symmetry; apply Nat.eqb_neq; lia).
+  rewrite !batch_of_app, Eb. cbn [obind].
   rewrite !app_length. cbn [length]. replace (2 <=? length bb + 2) with true by (symmetry; apply Nat.leb_le; lia).
   replace (1 <=? length bc + 2) with true by (symmetry; apply Nat.leb_le; lia). cbn [andb].
   replace (length bb + 2 - 2) with (length bb + 0) by lia. replace (length bc + 2 - 1) with (length bc + 1) by lia.
